@@ -59,6 +59,9 @@ pub struct Animator<T: Component> {
     #[reflect(ignore)]
     pub(super) timeline: Option<Box<dyn SafeTimeline<Target = T>>>,
     pub(super) state: AnimationState,
+    /// Whether this animator transitioned to [AnimationState::Ended] the last time the animation
+    /// system ran, i.e. whether the most recent `Ended` event for its entity is its own.
+    pub(super) just_ended: bool,
 }
 
 impl<T: Component> Default for Animator<T> {
@@ -68,6 +71,7 @@ impl<T: Component> Default for Animator<T> {
             timeline_position: Duration::ZERO,
             timeline: None,
             state: AnimationState::default(),
+            just_ended: false,
         }
     }
 }
@@ -80,6 +84,7 @@ impl<T: Component> Animator<T> {
             timeline: None,
             timeline_position: Duration::ZERO,
             state: AnimationState::None,
+            just_ended: false,
         }
     }
 
@@ -90,6 +95,7 @@ impl<T: Component> Animator<T> {
             timeline: Some(Box::new(timeline)),
             timeline_position: Duration::ZERO,
             state: AnimationState::None,
+            just_ended: false,
         }
     }
 
@@ -110,6 +116,7 @@ impl<T: Component> Animator<T> {
     pub fn reset(&mut self) {
         self.timeline_position = Duration::ZERO;
         self.state = AnimationState::None;
+        self.just_ended = false;
     }
 
     /// Configures the [Timeline](mina::Timeline) that this animator will use.
@@ -139,6 +146,9 @@ pub(super) fn animate<T: Component>(
     mut events: EventWriter<AnimationStateChanged>,
 ) {
     for (entity, mut animator) in animators.iter_mut() {
+        if animator.just_ended {
+            animator.just_ended = false;
+        }
         if !animator.enabled {
             continue;
         }
@@ -175,6 +185,7 @@ pub(super) fn animate<T: Component>(
         }
         if position_secs >= timeline_duration && animator.state != AnimationState::Ended {
             animator.state = AnimationState::Ended;
+            animator.just_ended = true;
             state_changed = true;
         }
         if animator.state != AnimationState::Ended {
